@@ -72,6 +72,13 @@ def cummul(env):
     for i in range(1, L): acc.append(acc[-1] @ M[i])
     env.eq('cumops with a non-commutative product is the ordered fold x_1 o ... o x_i', out, T.stack(acc, 0))
     env.eq('cumops leaves the input untouched', M, before)
+    # cumprod on plain matrices is the MATRIX product (@), in the stated order, for the out-of-place and the in-place spelling
+    accl = [M[0]]
+    for i in range(1, L): accl.append(M[i] @ accl[-1])
+    for nm, f in (('cumprod', lambda X, left: ops.cumprod(X, 0, left)), ('cumprod_', lambda X, left: ops.cumprod_(X, 0, left))):
+        env.eq(f'{nm}(left=False) on plain matrices is x_1 @ ... @ x_i', f(M.clone(), False), T.stack(acc, 0))
+        env.eq(f'{nm}(left=True) on plain matrices is x_i @ ... @ x_1', f(M.clone(), True), T.stack(accl, 0))
+    env.eq('cumprod leaves the input untouched', M, before)
     # other dimension
     Mt = M.transpose(0, 1).clone()                                                                      # (2,L,2)
     out2 = ops.cumops(Mt, 1, lambda a, b: a * b)
